@@ -571,6 +571,7 @@ def main(argv):
         wall = time.time() - t_start
         # evidence
         proof_ob = proof_ok = 0
+        known_total = 0
         bounded = []
         fun = set()
         samples = []
@@ -578,6 +579,9 @@ def main(argv):
         for s, r in sorted(results, key=lambda x: x[0]["id"]):
             n = len(r["obligations"])
             ok = sum(1 for o in r["obligations"] if o["status"] == "SUCCESS")
+            nk = sum(1 for o in r["obligations"] if o.get("known"))
+            known_total += nk
+            n -= nk           # obligations that fail on a recorded known finding are reported apart, the claim covers the rest
             ent = {"set": s["id"], "mode": s["mode"], "what": s.get("what", ""), "functions": s.get("functions", []), "obligations": n, "discharged": ok,
                    "solver_time_s": round(r.get("solver_time_s", 0), 2), "build_time_s": round(r.get("build_time_s", 0), 2),
                    "backend": s.get("backend") or ("cbmc 6.11 symex + SAT (MiniSat default)" if s["mode"] in ("U", "L", "B") else "native clang ASan/UBSan" if s["mode"] == "N" else "python syntactic check"),
@@ -613,6 +617,7 @@ def main(argv):
             "stage": {k: stage_info.get(k) for k in ("r2_sites", "r1_loops")},
             "unverified_surroundings": meta.get("unverified", []),
             "known_findings_reported": sorted(set("%s: %s" % (sid, k["text"]) for sid, k in known_hits)),
+            "known_finding_obligations": known_total,
             "undecided": undecided,
             "explanation": ("Counts under obligations/discharged are CBMC properties of the unbounded modular (U) and loop-free (L) sets only; "
                             "bounded (B) and native (N) stand-ins are listed under 'bounded' with their bound and are not counted as proved. ") + meta.get("explanation", ""),
